@@ -150,7 +150,10 @@ def run(ctx):
                         continue
                     if key not in results:
                         results[key] = out
-                    elif not same(results[key], out, exact=(name != 'log' and not (recursive and name == 'real')),
+                    # Real results are compared within 1e-12 also for non-recursive grammars: with the tiny weights of the C01 generator
+                    # (products of four and more powers of two next to 1) a sum is no longer exactly representable and its last bit
+                    # depends on the order of the terms (false alarm of sweep 10, seed 71: 5.626516854840602 against 5.6265168548406015)
+                    elif not same(results[key], out, exact=(name in ('viterbi', 'bool')),
                               rtol=1e-6 if recursive else 1e-12):
                         ctx.fail(f'{name}/{method}: result depends on how the grammar is written down (presentation {p})',
                                  dict(case, presentation=p, kwargs={k: v for k, v in kw.items() if k != 'rng'}), out, results[key],
